@@ -126,7 +126,8 @@ def chainNoFinal (arms : List (Bool × Expr F × Expr F)) (s : LState F) : LStat
   | _ :: _ => s
 
 mutual
-/-- main line of `e`; `root` = jump entry of the root being laid out, `cur` = jump entry of the
+/-- main line of `e`; `root` = jump entry of the root being laid out (no longer used by any case since `{ }` names
+`cur`, repo commit df89d39; kept so that the signatures of the layout lemmas stay), `cur` = jump entry of the
 containing expression body -/
 def emit (root cur : Nat) : Expr F → LState F → LState F
   | .lit v, s => s.pushConst .put v
